@@ -476,3 +476,4 @@ not_reproduced()
 # level text addendum (cases added after the seeded-change rounds)
 LEVEL_TEXT = LEVEL_TEXT + ' Also: boolean masks and index arrays as channel selectors, read_samples for every pair of bounds (empty ones included), two read_sync calls on different stretches of one reader.'
 LEVEL_TEXT = LEVEL_TEXT + ' Round 6: open-ended read_samples bounds (None), runs of consecutive negative / positive sample indices, read_sync with the floor removal switched off.'
+LEVEL_TEXT = LEVEL_TEXT + ' Round 7: reads of a nidq file are float32 too; the replay records an exception of any selector as the finding.'
